@@ -13,7 +13,7 @@ import subprocess
 ID = "C40"
 LEVEL = "exploration"
 RULE = ("signatures: every parameter list of length <= 2 (quick) / <= 3 (thorough) over {signed char, short, int, long, char*, float, double} "
-        "x 8 return types (void + the 7), lists of length <= 1 over the 4 unsigned kinds x 12 return types, and the long-list family "
+        "x 8 return types (void + the 7), in thorough also every list of length 4 with one return type each, lists of length <= 1 over the 4 unsigned kinds x 12 return types, and the long-list family "
         "(n_int <= 9, n_fp <= 11, 4 <= n_int+n_fp <= 12; ints-first / floats-first / alternating; integer kinds rotated by position - one rotation "
         "chosen by VERIF_SEED in quick, all 9 in thorough - plus "
         "uniform-kind variants for every list with a stack-passed argument); each signature x 2 call directions x 2 argument vectors "
@@ -22,7 +22,7 @@ RULE = ("signatures: every parameter list of length <= 2 (quick) / <= 3 (thoroug
 ASSUMPTIONS = [
     "gcc 12 (-O0, -no-pie) and GNU ld are System V ABI conforming: gcc is the other party of every call and the judge of argument/return locations",
     "expected argument bit patterns and return checksums are computed in Python (integers mod 2^64, IEEE doubles, ctypes float rounding), not by gcc; "
-    "every run first replays every signature with gcc -O2 on both sides of the same driver, which must be silent (harness error otherwise)",
+    "every run first replays every signature with gcc -O1 on both sides of the same driver, which must be silent (harness error otherwise)",
     "callee bodies use only stores to globals, integer *,+ on unsigned long, double *,+ and widening casts; no double->int conversion "
     "(DESIGN defect 33) and no identity casts (ppci's selector has no F64TOF64 pattern) so that front-end defects do not mask ABI defects",
     "ppci compiles at its default optimisation level (0); x87/MXCSR control words and the direction flag are not checked",
@@ -150,7 +150,6 @@ def long_lists(seed):
 
 def signatures(tier, seed):
     import itertools
-    out = []
     maxlen = 2 if tier == "quick" else 3
     rets = ["v"] + BASE
     short = []
@@ -158,6 +157,10 @@ def signatures(tier, seed):
         for ps in itertools.product(BASE, repeat=n):
             for r in rets:
                 short.append((r, tuple(ps)))
+    if tier != "quick":
+        # length 4: every kind in the fourth integer register / fourth xmm register; one return type per list
+        for i, ps in enumerate(itertools.product(BASE, repeat=4)):
+            short.append((rets[i % len(rets)], tuple(ps)))
     uns = []
     for ps in [()] + [(k,) for k in UNSIGNED]:
         for r in rets + UNSIGNED:
@@ -416,71 +419,77 @@ int main(void) {
 
 
 def driver_source(tests):
-    """tests: list of (n, sig, do_a, do_b)."""
+    """tests: list of (n, sig).  Both directions of every signature; the ppci-side symbols are weak so that one driver
+    object serves every subset of the ppci objects (tests whose object is not linked are skipped)."""
     out = [DRIVER_HEAD]
     names = []
-    for n, sig, do_a, do_b in tests:
+    W = "__attribute__((weak))"
+    for n, sig in tests:
         r, ps = sig
         rt = "void" if r == "v" else KINDS[r][0]
         ptypes = ", ".join(KINDS[k][0] for k in ps) or "void"
-        if do_a:
+        # ---- direction A: ppci callee pa<n> with its globals ga<n>_<i>
+        for i, k in enumerate(ps):
+            out.append("extern %s ga%d_%d %s;" % (KINDS[k][0], n, i, W))
+        out.append("extern %s pa%d(%s) %s;" % (rt, n, ptypes, W))
+        b = ["static void tA%d(void) {" % n, "  typedef %s (*fn_t)(%s);" % (rt, ptypes)]
+        if r != "v":
+            b.append("  %s r;" % rt)
+        b.append("  if (!pa%d) return;" % n)
+        b.append("  cur_dir = 'A'; cur_n = %d; cur_vec = 0; printf(\"T A %d\\n\");" % (n, n))
+        for i in range(len(ps)):
+            b.append("  if (!&ga%d_%d) { printf(\"F A %d 0 nosym %d 0 1\\n\"); return; }" % (n, i, n, i))
+        for vec in (0, 1):
+            b.append("  cur_vec = %d;" % vec)
+            for i in range(len(ps)):
+                b.append("  POISON(ga%d_%d);" % (n, i))
+            b.append("  shim_target = (void *)pa%d; shim_bad = 0xFFFF;" % n)
+            args = ", ".join(c_const(k, arg_bits(k, i, vec)) for i, k in enumerate(ps))
+            b.append("  %s((fn_t)shim)(%s);" % ("" if r == "v" else "r = ", args))
+            b.append("  chk('A', %d, %d, \"shim\", 0, shim_bad, 0);" % (n, vec))
             for i, k in enumerate(ps):
-                out.append("extern %s ga%d_%d;" % (KINDS[k][0], n, i))
-            out.append("extern %s pa%d(%s);" % (rt, n, ptypes))
-            b = ["static void tA%d(void) {" % n, "  typedef %s (*fn_t)(%s);" % (rt, ptypes)]
+                b.append("  chk('A', %d, %d, \"arg\", %d, BITS(ga%d_%d), 0x%xUL);" % (n, vec, i, n, i, arg_bits(k, i, vec)))
             if r != "v":
-                b.append("  %s r;" % rt)
-            b.append("  cur_dir = 'A'; cur_n = %d; printf(\"T A %d\\n\");" % (n, n))
-            for vec in (0, 1):
-                b.append("  cur_vec = %d;" % vec)
-                for i in range(len(ps)):
-                    b.append("  POISON(ga%d_%d);" % (n, i))
-                b.append("  shim_target = (void *)pa%d; shim_bad = 0xFFFF;" % n)
-                args = ", ".join(c_const(k, arg_bits(k, i, vec)) for i, k in enumerate(ps))
-                b.append("  %s((fn_t)shim)(%s);" % ("" if r == "v" else "r = ", args))
-                b.append("  chk('A', %d, %d, \"shim\", 0, shim_bad, 0);" % (n, vec))
-                for i, k in enumerate(ps):
-                    b.append("  chk('A', %d, %d, \"arg\", %d, BITS(ga%d_%d), 0x%xUL);" % (n, vec, i, n, i, arg_bits(k, i, vec)))
-                if r != "v":
-                    b.append("  printf(\"R A %d %d %%016lx\\n\", BITS(r));" % (n, vec))
-                    b.append("  chk('A', %d, %d, \"ret\", 0, BITS(r), 0x%xUL);" % (n, vec, expected_return(sig, vec)))
-                else:
-                    b.append("  printf(\"R A %d %d void\\n\");" % (n, vec))
-            b.append("}")
-            out.append("\n".join(b))
-            names.append("tA%d" % n)
-        if do_b:
+                b.append("  printf(\"R A %d %d %%016lx\\n\", BITS(r));" % (n, vec))
+                b.append("  chk('A', %d, %d, \"ret\", 0, BITS(r), 0x%xUL);" % (n, vec, expected_return(sig, vec)))
+            else:
+                b.append("  printf(\"R A %d %d void\\n\");" % (n, vec))
+        b.append("}")
+        out.append("\n".join(b))
+        names.append("tA%d" % n)
+        # ---- direction B: gcc callee gb<n> (entered through an alignment-checking stub), ppci caller cb<n>
+        for i, k in enumerate(ps):
+            out.append("%s vb%d_%d;" % (KINDS[k][0], n, i))
+        out.append(callee_source(sig, "gb%d_impl" % n, "hb%d_" % n))
+        out.append("extern %s gb%d(%s);" % (rt, n, ptypes))
+        out.append("__asm__(\"    .text\\n    .globl gb%d\\n    .type gb%d,@function\\ngb%d:\\n\"\n"
+                   "\"    incl entered(%%rip)\\n    movq %%rsp, %%r11\\n    andl $15, %%r11d\\n    cmpl $8, %%r11d\\n    je 1f\\n\"\n"
+                   "\"    incl misalign(%%rip)\\n1:\\n    jmp gb%d_impl\\n\");" % (n, n, n, n))
+        out.append("extern %s cb%d(void) %s;" % (rt, n, W))
+        b = ["static void tB%d(void) {" % n, "  typedef %s (*fn_t)(void);" % rt]
+        if r != "v":
+            b.append("  %s r;" % rt)
+        b.append("  if (!cb%d) return;" % n)
+        b.append("  cur_dir = 'B'; cur_n = %d; printf(\"T B %d\\n\");" % (n, n))
+        for vec in (0, 1):
+            b.append("  cur_vec = %d;" % vec)
             for i, k in enumerate(ps):
-                out.append("%s vb%d_%d;" % (KINDS[k][0], n, i))
-            out.append(callee_source(sig, "gb%d_impl" % n, "hb%d_" % n))
-            out.append("extern %s gb%d(%s);" % (rt, n, ptypes))
-            out.append("__asm__(\"    .text\\n    .globl gb%d\\n    .type gb%d,@function\\ngb%d:\\n\"\n"
-                       "\"    incl entered(%%rip)\\n    movq %%rsp, %%r11\\n    andl $15, %%r11d\\n    cmpl $8, %%r11d\\n    je 1f\\n\"\n"
-                       "\"    incl misalign(%%rip)\\n1:\\n    jmp gb%d_impl\\n\");" % (n, n, n, n))
-            out.append("extern %s cb%d(void);" % (rt, n))
-            b = ["static void tB%d(void) {" % n, "  typedef %s (*fn_t)(void);" % rt]
+                b.append("  POISON(hb%d_%d); vb%d_%d = %s;" % (n, i, n, i, c_const(k, arg_bits(k, i, vec))))
+            b.append("  shim_target = (void *)cb%d; shim_bad = 0xFFFF; misalign = 0; entered = 0;" % n)
+            b.append("  %s((fn_t)shim)();" % ("" if r == "v" else "r = "))
+            b.append("  chk('B', %d, %d, \"shim\", 0, shim_bad, 0);" % (n, vec))
+            b.append("  chk('B', %d, %d, \"entered\", 0, entered, 1);" % (n, vec))
+            b.append("  chk('B', %d, %d, \"align\", 0, misalign, 0);" % (n, vec))
+            for i, k in enumerate(ps):
+                b.append("  chk('B', %d, %d, \"arg\", %d, BITS(hb%d_%d), 0x%xUL);" % (n, vec, i, n, i, arg_bits(k, i, vec)))
             if r != "v":
-                b.append("  %s r;" % rt)
-            b.append("  cur_dir = 'B'; cur_n = %d; printf(\"T B %d\\n\");" % (n, n))
-            for vec in (0, 1):
-                b.append("  cur_vec = %d;" % vec)
-                for i, k in enumerate(ps):
-                    b.append("  POISON(hb%d_%d); vb%d_%d = %s;" % (n, i, n, i, c_const(k, arg_bits(k, i, vec))))
-                b.append("  shim_target = (void *)cb%d; shim_bad = 0xFFFF; misalign = 0; entered = 0;" % n)
-                b.append("  %s((fn_t)shim)();" % ("" if r == "v" else "r = "))
-                b.append("  chk('B', %d, %d, \"shim\", 0, shim_bad, 0);" % (n, vec))
-                b.append("  chk('B', %d, %d, \"entered\", 0, entered, 1);" % (n, vec))
-                b.append("  chk('B', %d, %d, \"align\", 0, misalign, 0);" % (n, vec))
-                for i, k in enumerate(ps):
-                    b.append("  chk('B', %d, %d, \"arg\", %d, BITS(hb%d_%d), 0x%xUL);" % (n, vec, i, n, i, arg_bits(k, i, vec)))
-                if r != "v":
-                    b.append("  printf(\"R B %d %d %%016lx\\n\", BITS(r));" % (n, vec))
-                    b.append("  chk('B', %d, %d, \"ret\", 0, BITS(r), 0x%xUL);" % (n, vec, expected_return(sig, vec)))
-                else:
-                    b.append("  printf(\"R B %d %d void\\n\");" % (n, vec))
-            b.append("}")
-            out.append("\n".join(b))
-            names.append("tB%d" % n)
+                b.append("  printf(\"R B %d %d %%016lx\\n\", BITS(r));" % (n, vec))
+                b.append("  chk('B', %d, %d, \"ret\", 0, BITS(r), 0x%xUL);" % (n, vec, expected_return(sig, vec)))
+            else:
+                b.append("  printf(\"R B %d %d void\\n\");" % (n, vec))
+        b.append("}")
+        out.append("\n".join(b))
+        names.append("tB%d" % n)
     out.append("static void (*tests[])(void) = { %s };" % ", ".join(names))
     out.append(DRIVER_MAIN)
     return "\n".join(out)
@@ -515,18 +524,27 @@ def _limits():
     resource.setrlimit(resource.RLIMIT_CORE, (0, 0))
 
 
-def run_group(d, tag, tests, objs):
-    """gcc-compile the driver for `tests`, link with the ppci objects, run; returns parsed records.
-    tests: list of (n, sig, do_a, do_b); objs: list of object paths."""
+def compile_driver(d, tag, tests):
+    """gcc -O0 -c the driver for `tests` [(n, sig)]; returns the object path."""
+    from vf.core import HarnessError
     drv = os.path.join(d, "drv_%s.c" % tag)
-    exe = os.path.join(d, "drv_%s.exe" % tag)
+    obj = os.path.join(d, "drv_%s.o" % tag)
     with open(drv, "w") as f:
         f.write(driver_source(tests))
+    r = subprocess.run(["gcc", "-O0", "-w", "-fno-pie", "-ffp-contract=off", "-fno-builtin", "-c", "-o", obj, drv], capture_output=True, text=True)
+    if r.returncode != 0:
+        raise HarnessError("gcc rejects the generated driver: " + r.stderr[-400:])
+    return obj
+
+
+def run_group(d, tag, drvobj, objs):
+    """Link the driver object with `objs` (GNU ld through gcc), run it, return the parsed records {(dir, n): rec}.
+    Tests whose ppci object is not among `objs` skip themselves."""
+    exe = os.path.join(d, "drv_%s.exe" % tag)
     rsp = os.path.join(d, "drv_%s.rsp" % tag)
     with open(rsp, "w") as f:
-        f.write("\n".join(objs) + "\n")
-    r = subprocess.run(["gcc", "-O0", "-w", "-no-pie", "-fno-pie", "-ffp-contract=off", "-fno-builtin", "-o", exe, drv, "@" + rsp],
-                       capture_output=True, text=True)
+        f.write("\n".join([drvobj] + list(objs)) + "\n")
+    r = subprocess.run(["gcc", "-no-pie", "-o", exe, "@" + rsp], capture_output=True, text=True)
     if r.returncode != 0:
         raise GroupFailure("link", (r.stderr or "").strip()[-600:])
     r = subprocess.run([exe], capture_output=True, text=True, errors="replace", preexec_fn=_limits)
@@ -556,7 +574,6 @@ def run_group(d, tag, tests, objs):
 def classify(direction, sig, rec):
     """Provisional findings of one executed (direction, signature): list of (tag tuple, what)."""
     r, ps = sig
-    side = "callee" if direction == "A" else "caller"
     who = ("ppci callee, gcc caller" if direction == "A" else "gcc callee, ppci caller")
     locs = abi_locs(ps)
     out = []
@@ -566,6 +583,9 @@ def classify(direction, sig, rec):
         out.append((("crash", SIGNALS.get(signo, str(signo))), "%s: %s during the call (vector %d)" % (head, SIGNALS.get(signo, signo), vec)))
         return out
     fails = sorted(rec["fails"])
+    if any(f[1] == "nosym" for f in fails):
+        out.append((("nosym",), "%s: a global of the ppci object is not visible to the linker" % head))
+        return out
     args = [f for f in fails if f[1] == "arg"]
     rets = [f for f in fails if f[1] == "ret"]
     shim = [f for f in fails if f[1] == "shim"]
@@ -660,26 +680,26 @@ class Explorer:
                 cf.append((direction, compile_finding(direction, sig, ex)))
         return (n, sig, do["A"], do["B"]), objs, cf
 
-    def run_tests(self, tests, objs, tag):
+    def run_tests(self, tests, objs, tag, drvobj):
         """Run a group; on a group-level failure bisect down to single signatures.
         Returns {(dir, n): rec}; group failures of a single signature become rec with 'group' set."""
         if not tests:
             return {}
         try:
-            return run_group(self.d, tag, tests, [objs[t[0]][dr] for t in tests for dr, on in (("A", t[2]), ("B", t[3])) if on])
+            return run_group(self.d, tag, drvobj, [objs[t[0]][dr] for t in tests for dr, on in (("A", t[2]), ("B", t[3])) if on])
         except GroupFailure as gf:
             self.p.count("group_failures")
             if any(t[2] and t[3] for t in tests):
                 # split the two directions first
-                res = self.run_tests([(t[0], t[1], True, False) for t in tests if t[2]], objs, tag + "a")
-                res.update(self.run_tests([(t[0], t[1], False, True) for t in tests if t[3]], objs, tag + "b"))
+                res = self.run_tests([(t[0], t[1], True, False) for t in tests if t[2]], objs, tag + "a", drvobj)
+                res.update(self.run_tests([(t[0], t[1], False, True) for t in tests if t[3]], objs, tag + "b", drvobj))
                 return res
             if len(tests) == 1:
                 t = tests[0]
                 return {("A" if t[2] else "B", t[0]): {"ret": {}, "fails": [], "crash": None, "group": (gf.stage, gf.detail)}}
             mid = len(tests) // 2
-            res = self.run_tests(tests[:mid], objs, tag + "l")
-            res.update(self.run_tests(tests[mid:], objs, tag + "r"))
+            res = self.run_tests(tests[:mid], objs, tag + "l", drvobj)
+            res.update(self.run_tests(tests[mid:], objs, tag + "r", drvobj))
             return res
 
     def findings_of(self, direction, sig, rec):
@@ -699,14 +719,16 @@ class Explorer:
         t, objs, cf = self.build(0, sig, direction == "A", direction == "B")
         if cf:
             return [f for _, f in cf], None
-        res = self.run_tests([t], {0: objs}, "s%d" % self.seq)
+        self.seq += 1
+        drvobj = compile_driver(self.d, "s%d" % self.seq, [(0, sig)])
+        res = self.run_tests([t], {0: objs}, "s%d" % self.seq, drvobj)
         rec = res.get((direction, 0))
         if rec is None:
-            return [(("run",), "%s: no record from the isolated run" % sig_c(sig))], None
+            rec = {"ret": {}, "fails": [(0, "nosym", 0, 0, 1)], "crash": None}
         return self.findings_of(direction, sig, rec), rec
 
-    def selfcheck(self, items):
-        """The same driver with gcc (-O2) on BOTH sides must be silent for every signature of the batch: validates the
+    def selfcheck(self, items, drvobj):
+        """The same driver with gcc (-O1) on BOTH sides must be silent for every signature of the batch: validates the
         shim, the stubs, the driver and the Python reference against gcc.  Any disagreement is a harness error."""
         from vf.core import HarnessError
         src = os.path.join(self.d, "selfcheck.c")
@@ -715,11 +737,11 @@ class Explorer:
             for n, (order, sig) in enumerate(items):
                 f.write(callee_source(sig, "pa%d" % n, "ga%d_" % n))
                 f.write(caller_source(sig, n))
-        r = subprocess.run(["gcc", "-O2", "-w", "-fno-pie", "-ffp-contract=off", "-c", "-o", obj, src], capture_output=True, text=True)
+        r = subprocess.run(["gcc", "-O1", "-w", "-fno-pie", "-ffp-contract=off", "-c", "-o", obj, src], capture_output=True, text=True)
         if r.returncode != 0:
             raise HarnessError("self-check: gcc rejects the generated sources: " + r.stderr[-400:])
         try:
-            res = run_group(self.d, "sc", [(n, sig, True, True) for n, (order, sig) in enumerate(items)], [obj])
+            res = run_group(self.d, "sc", drvobj, [obj])
         except GroupFailure as gf:
             raise HarnessError("self-check (gcc on both sides) failed: %s" % gf)
         for n, (order, sig) in enumerate(items):
@@ -733,7 +755,7 @@ class Explorer:
     def batch(self, items):
         """items: list of (order, sig)."""
         p = self.p
-        tests, objs = [], {}
+        tests, objs, built = [], {}, {}
         for n, (order, sig) in enumerate(items):
             t, o, cf = self.build(n, sig)
             objs[n] = o
@@ -743,13 +765,18 @@ class Explorer:
                 self.findings.append((order, direction, sig_str(sig), tag, what, True))
             if t[2] or t[3]:
                 tests.append(t)
-        self.selfcheck(items)
-        res = self.run_tests(tests, objs, "b")
+            built[("A", n)], built[("B", n)] = t[2], t[3]
+        drvobj = compile_driver(self.d, "b", [(n, sig) for n, (order, sig) in enumerate(items)])
+        self.selfcheck(items, drvobj)
+        res = self.run_tests(tests, objs, "b", drvobj)
         for n, (order, sig) in enumerate(items):
             for direction in "AB":
                 rec = res.get((direction, n))
                 if rec is None:
-                    continue
+                    if not built[(direction, n)]:
+                        continue
+                    # compiled by ppci but the driver found no such function: the symbol is missing or not global
+                    rec = {"ret": {}, "fails": [(0, "nosym", 0, 0, 1)], "crash": None}
                 ncalls = len(rec["ret"]) + (1 if rec["crash"] else 0)
                 p.add(max(ncalls, 1))
                 p.count("calls_executed", ncalls)
@@ -853,6 +880,10 @@ def assign_keys(findings):
             key = "%s/no-return" % side
         elif tag[0] == "link":
             key = "%s/link-failed" % side
+        elif tag[0] == "nosym":
+            key = "%s/symbol-not-linkable" % side
+        elif tag[0] == "run":
+            key = "%s/driver-died" % side
         else:
             key = "%s/%s" % (side, "-".join(str(t) for t in tag))
         out.append((key, order, what, wit))
@@ -873,7 +904,8 @@ def run(ctx):
                     "callee": callee_source(s, "f", "g")})
     indexed = list(enumerate(sigs))
     batches = [(bi, indexed[i:i + BATCH]) for bi, i in enumerate(range(0, len(indexed), BATCH))]
-    ctx.pmap(worker, batches, nshards=len(batches))
+    # heaviest (longest lists) first so that the pool's tail is short; results are order-independent
+    ctx.pmap(worker, batches[::-1], nshards=len(batches))
     findings = ctx.sets.pop("_findings", set())
     keyed, explained = assign_keys(findings)
     if explained:
